@@ -97,6 +97,8 @@ def expressions(depth, with_z):
 
 
 CONFIGS = [
+    # a single control interval: grid='control-' has exactly one time point (the leading index must survive)
+    dict(method="MS", N=1, M=1), dict(method="DC", N=1, M=2, degree=2, alg=True),
     dict(method="MS", N=2, M=1), dict(method="MS", N=3, M=2, grid="geom"), dict(method="MS", N=2, M=2, intg="expl_euler"),
     dict(method="SS", N=2, M=2), dict(method="SS", N=3, M=1, grid="geom", horizon="Tfree"),
     dict(method="DC", N=2, M=1, degree=2), dict(method="DC", N=2, M=2, degree=3, scheme="legendre", grid="geom"), dict(method="DC", N=3, M=2, degree=2, alg=True),
@@ -118,7 +120,7 @@ def config(c):
 def cases(tier):
     depth = 3 if tier == "thorough" else 2
     out = []
-    cfgs = CONFIGS if tier == "thorough" else CONFIGS[:9]
+    cfgs = CONFIGS if tier == "thorough" else CONFIGS[:11]
     for ci, c in enumerate(cfgs):
         d = config(c)
         ex = expressions(depth, d["alg"])
@@ -194,7 +196,8 @@ def run_case(case):
             sy = atom(CA, s, name)
             kw = {} if refine is None else {"refine": refine}
             t, v = st.sample(sy, grid=grid, **kw)
-            prim_cache[key] = (np.atleast_1d(np.array(fake.value(t), dtype=float)).reshape(-1), np.atleast_2d(np.array(fake.value(v), dtype=float)))
+            # (the solution object hands a one-column matrix back as a 1-D array, like OptiSol.value: restore the sample's own shape)
+            prim_cache[key] = (np.atleast_1d(np.array(fake.value(t), dtype=float)).reshape(-1), np.array(fake.value(v), dtype=float).reshape(ca.MX(v).shape, order="F"))
         return prim_cache[key]
     for ast in case["exprs"]:
         ats = atoms_of(ast)
